@@ -247,4 +247,54 @@ def stripAux : Nat → Str → Str
 
 def stripAnsi (s : Str) : Str := stripAux 0 s
 
+/-! ## The SGR specification, executable (for the driver)
+
+An executable copy of the specification `expectedCodes` of Lemmas/C11Sgr (ECMA-48 / xterm
+numbering, written down independently of pastel's tables); `Props.C11.spec_codes_decides` proves
+the two equal.  The driver answers it for every style of the exhaustive table (`c11.sgr`, field
+`spec`), the harness compares it with the oracle's own table. -/
+
+/-- colour names and their SGR colour index -/
+def specColorIndex : List (Str × Nat) :=
+  [(['b', 'l', 'a', 'c', 'k'], 0),
+   (['r', 'e', 'd'], 1),
+   (['g', 'r', 'e', 'e', 'n'], 2),
+   (['y', 'e', 'l', 'l', 'o', 'w'], 3),
+   (['b', 'l', 'u', 'e'], 4),
+   (['m', 'a', 'g', 'e', 'n', 't', 'a'], 5),
+   (['c', 'y', 'a', 'n'], 6),
+   (['l', 'i', 'g', 'h', 't', '_', 'g', 'r', 'a', 'y'], 7),
+   (['d', 'e', 'f', 'a', 'u', 'l', 't'], 9),
+   (['d', 'a', 'r', 'k', '_', 'g', 'r', 'a', 'y'], 60),
+   (['l', 'i', 'g', 'h', 't', '_', 'r', 'e', 'd'], 61),
+   (['l', 'i', 'g', 'h', 't', '_', 'g', 'r', 'e', 'e', 'n'], 62),
+   (['l', 'i', 'g', 'h', 't', '_', 'y', 'e', 'l', 'l', 'o', 'w'], 63),
+   (['l', 'i', 'g', 'h', 't', '_', 'b', 'l', 'u', 'e'], 64),
+   (['l', 'i', 'g', 'h', 't', '_', 'm', 'a', 'g', 'e', 'n', 't', 'a'], 65),
+   (['l', 'i', 'g', 'h', 't', '_', 'c', 'y', 'a', 'n'], 66),
+   (['w', 'h', 'i', 't', 'e'], 67)]
+
+/-- SGR code of each style attribute -/
+def specAttrCode : Attr → Nat
+  | .bold => 1
+  | .dark => 2
+  | .italic => 3
+  | .underlined => 4
+  | .blinking => 5
+  | .inverse => 7
+  | .hidden => 8
+
+/-- the order in which the attributes of a style are rendered -/
+def specAttrOrder : List Attr := [.bold, .italic, .dark, .underlined, .blinking, .inverse, .hidden]
+
+def specColour (base : Nat) : Option Str → Option (List Nat)
+  | none => some []
+  | some n => (dictGet? n specColorIndex).map (fun i => [base + i])
+
+/-- the codes a style has to be rendered with (`none`: a colour name outside the table) -/
+def specCodes (s : Style) : Option (List Nat) :=
+  match specColour 30 s.fg, specColour 40 s.bg with
+  | some f, some b => some (f ++ b ++ (specAttrOrder.filter s.has).map specAttrCode)
+  | _, _ => none
+
 end Clikit.Style
